@@ -11,7 +11,7 @@
       state (cell -> interval, summary interval).  Smashing ([SSmash]) and the symbolic load
       need the hypothesis that every defined cell of the concrete array is tracked by a
       cell of the map ([tracked]); the symbolic load gets it from covers_all_offsets
-      (fixes/arrays-4), the smashing store does NOT establish it: the code smashes whatever
+      (fixes/arrays-5), the smashing store does NOT establish it: the code smashes whatever
       cells it tracks (this is the recorded finding of property C14 on array_adaptive). *)
 From Coq Require Import ZArith NArith List Bool Lia.
 From CrabV Require Import Base.ZInf Scalar.Itv Scalar.ItvSound Ir.Syntax Dom.ItvEnv Dom.ItvEnvSound
@@ -149,9 +149,9 @@ Proof. unfold wf_le, le_addc. simpl. auto. Qed.
 
 Lemma sym_test_sound slb sub dom b s : wf_le slb -> wf_le sub -> genv dom s ->
   eval_le slb s <= b <= eval_le sub s ->
-  e_is_bot (d_add [mkLC INEQ (le_addc (le_neg sub) b)] (d_add [mkLC INEQ (le_addc slb (- b))] dom)) = false.
+  e_is_bot (sym_test slb sub dom b) = false.
 Proof.
-  intros W1 W2 G H. apply (genv_not_bot _ s). apply d_add_sound.
+  intros W1 W2 G H. apply (genv_not_bot _ s). unfold sym_test. apply d_add_sound.
   - intros c [<-|[]]. split.
     + unfold wf_lc. simpl. apply wf_le_addc. apply wf_le_neg. auto.
     + unfold sat. simpl. rewrite eval_le_addc, eval_le_neg. lia.
@@ -171,7 +171,7 @@ Proof.
   intros W1 W2 R H G. unfold c_sym_overlap in H. rewrite R in H.
   split; intros X.
   - rewrite (sym_test_sound slb sub dom _ s W1 W2 G X) in H. discriminate.
-  - destruct (negb (e_is_bot _)); [discriminate|].
+  - destruct (e_is_bot (sym_test slb sub dom (c_off c))); [|discriminate].
     rewrite (sym_test_sound slb sub dom _ s W1 W2 G X) in H. discriminate.
 Qed.
 
@@ -257,33 +257,23 @@ Proof.
   destruct (l <? 0) eqn:NL; [discriminate|]. apply Z.ltb_ge in NL.
   destruct G as [G1 G2]. rewrite L in G1. rewrite U in G2. simpl in G1, G2.
   apply Z.leb_le in G1. apply Z.leb_le in G2.
-  set (o := Z.quot (l + esz - 1) esz * esz) in *.
-  assert (QO : Z.quot (l + esz - 1) esz = (l + esz - 1) / esz) by (apply Z.quot_div_nonneg; lia).
-  assert (OL : l <= o /\ o < l + esz /\ o mod esz = 0).
-  { unfold o. rewrite QO. pose proof (Z.div_mod (l + esz - 1) esz ltac:(lia)) as DM.
-    pose proof (Z.mod_pos_bound (l + esz - 1) esz K). split; [nia|]. split; [nia|].
-    apply Z.mod_mul. lia. }
-  destruct OL as (O1 & O2 & O3).
-  apply Z.div_exact in A; [|lia]. apply Z.div_exact in O3; [|lia].
-  assert (OI : o <= i).
-  { (* i is a multiple of esz that is >= l, o is the least one *)
-    assert (o / esz <= i / esz); [|nia].
-    apply Z.div_le_lower_bound; [lia|]. rewrite Z.mul_comm, <- O3.
-    assert (o - esz < l) by lia.
-    assert (X : o / esz - 1 < i / esz); [|nia]. nia. }
+  rewrite (Z.quot_div_nonneg (l + esz - 1) esz) in H by lia.
+  set (qo := (l + esz - 1) / esz) in *.
+  assert (Q1 : esz * qo <= l + esz - 1) by (apply Z.mul_div_le; lia).
+  assert (Q2 : l + esz - 1 < esz * Z.succ qo) by (apply Z.mul_succ_div_gt; lia).
+  apply Z.div_exact in A; [|lia]. set (qi := i / esz) in *.
+  assert (QQ : qo <= qi) by nia.
+  set (o := qo * esz) in *.
+  assert (OI : o <= i) by (unfold o; nia).
   destruct (Z.of_nat (length cells) <=? Z.quot (u - o) esz); [discriminate|].
   destruct (u <? o) eqn:UO; [apply Z.ltb_lt in UO; lia|]. apply Z.ltb_ge in UO.
-  assert (QU : Z.quot (u - o) esz = (u - o) / esz) by (apply Z.quot_div_nonneg; lia).
-  rewrite QU in H.
-  destruct (covers_from_spec cells esz _ o ((i - o) / esz) H) as (c & I & E).
-  - rewrite Z2Nat.id by (pose proof (Z.div_pos (u - o) esz); lia). split.
-    + apply Z.div_pos; lia.
-    + assert ((i - o) / esz <= (u - o) / esz) by (apply Z.div_le_mono; lia). lia.
-  - exists c. split; auto. rewrite E.
-    assert (DM : (i - o) mod esz = 0).
-    { rewrite Zminus_mod. apply Z.div_exact in A; [|lia]. apply Z.div_exact in O3; [|lia].
-      rewrite A, O3. reflexivity. }
-    apply Z.div_exact in DM; [|lia]. lia.
+  rewrite (Z.quot_div_nonneg (u - o) esz) in H by lia.
+  assert (J : (i - o) / esz = qi - qo).
+  { symmetry. apply (Z.div_unique (i - o) esz (qi - qo) 0); [lia|]. unfold o. nia. }
+  destruct (covers_from_spec cells esz _ o (qi - qo) H) as (c & I & E).
+  - rewrite Z2Nat.id by (pose proof (Z.div_pos (u - o) esz); lia). split; [lia|].
+    assert ((i - o) / esz <= (u - o) / esz) by (apply Z.div_le_mono; lia). lia.
+  - exists c. split; auto. rewrite E. unfold o. nia.
 Qed.
 
 (* ---- 3. the decision table on a value-level reading of an array state ---- *)
@@ -536,3 +526,42 @@ Proof.
 Qed.
 
 End Decisions.
+
+(* ---- the hypothesis [tracked] of the smashing store cannot be dropped ----
+   The array has the cell (0,4) = 5 and, untracked, the defined cell 8 = 2; a store of 7 at
+   a symbolic index in [0,4] smashes the array: the summary [5,7] does not describe cell 8.
+   (The same history on the real array_adaptive_domain: see known_findings.json.) *)
+Definition rf_p : params := mkP true true 64 64.
+Definition rf_a : aval :=
+  mkV (mkS false (Some 0) [mkC 0 4 false]) (fun _ _ => iconst 5) itop.
+Definition rf_dom : env := EMap [(0%N, mkI (Fin 0) (Fin 4))].
+Definition rf_slb : linexp := mkLE [(1, 0%N)] 0.
+Definition rf_sub : linexp := mkLE [(1, 0%N)] 3.
+Definition rf_mu : mem := fun o => if o =? 0 then Some 5 else if o =? 8 then Some 2 else None.
+
+Theorem smash_untracked_refuted :
+  wf_state 4 rf_a /\ access 4 (mkI (Fin 0) (Fin 4)) rf_slb rf_sub rf_dom 0 /\
+  gamma (iconst 7) 7 /\ gam 4 rf_a rf_mu /\
+  store_decide rf_p (v_st rf_a) (mkI (Fin 0) (Fin 4)) rf_slb rf_sub rf_dom 4 = SSmash [mkC 0 4 false] /\
+  ~ gam 4 (store_val rf_p rf_a (SSmash [mkC 0 4 false]) 4 (iconst 7)) (mstore rf_mu 0 7).
+Proof.
+  split; [|split; [|split; [|split; [|split]]]].
+  - split; [|split].
+    + split; [repeat constructor; simpl; tauto|]. intros c d [<-|[]] [<-|[]] _. auto.
+    + intros c [<-|[]]. simpl. split; auto. split; [lia|reflexivity].
+    + intros c [<-|[]]. auto.
+  - constructor.
+    + split; [lia|reflexivity].
+    + split; reflexivity.
+    + split; split; simpl; try (repeat constructor; simpl; tauto);
+        intros c v [E|[]]; inversion E; lia.
+    + exists (fun _ => 0). split; [|split; reflexivity].
+      intros kk. simpl. destruct kk; simpl; split; reflexivity.
+  - split; reflexivity.
+  - unfold gam. simpl. intros c v [<-|[]]. simpl. intros H. inversion H. split; reflexivity.
+  - vm_compute. reflexivity.
+  - unfold gam. intros H.
+    assert (X : gamma (v_sum (store_val rf_p rf_a (SSmash [mkC 0 4 false]) 4 (iconst 7))) 2).
+    { revert H. vm_compute. intros H. apply (H eq_refl 8 2 eq_refl). }
+    revert X. vm_compute. intros [X1 X2]. discriminate.
+Qed.
